@@ -849,7 +849,7 @@ fn run_toy(o: &Opts) {
         // bodies below the sampling minimum go through the real `PadTo20`; one case in ten fills the buffer
         let need_pad_max = 4usize.saturating_sub(pn_len); // body lengths 1..need_pad_max need padding
         let pad = need_pad_max >= 2 && rng.chance(1, 3) || (pn_len >= 3 && rng.chance(1, 8));
-        let body = if pad && need_pad_max >= 2 { rng.bytes(1 + rng.below(need_pad_max as u64 - 1) as usize) } else { gen_body(&mut rng, pn_len, 120) };
+        let body = if pad && need_pad_max >= 2 { let n = 1 + rng.below(need_pad_max as u64 - 1) as usize; rng.bytes(n) } else { gen_body(&mut rng, pn_len, 120) };
         let fill = !pad && rng.chance(1, 10);
         let plan = BodyPlan { buf_len: if token_len > 800 { token_len + 400 } else { 1200 }, fill, pad };
         let exp = if explicit { pn } else if rng.chance(1, 8) { pn + 1 } else if pn == 0 { 0 } else { la + 1 + rng.below(pn - la) };
@@ -1214,12 +1214,16 @@ fn run_keys(o: &Opts) {
                 0..=6 => {
                     pn += 1 + rng.below(3);
                     let forged = rng.chance(1, 8);
+                    // one packet in 16 is sealed two generations ahead (same phase bit as now): genuine, but outside
+                    // the window until the receiver has followed two updates
+                    let ahead = !forged && s_gen + 2 <= 7 && rng.chance(1, 16);
                     let (generation, kp, key) = if forged {
-                        match rng.below(3) {
+                        match rng.below(2) {
                             0 => (s_gen, 1 - (s_gen % 2) as u8, key_of(s_gen)),       // right key, wrong phase bit
-                            1 => (s_gen, (s_gen % 2) as u8, rng.next_u64()),           // unknown key, right phase bit
-                            _ => ((s_gen + 2).min(7), (s_gen % 2) as u8, key_of((s_gen + 2).min(7))), // two generations ahead
+                            _ => (s_gen, (s_gen % 2) as u8, rng.next_u64()),           // unknown key, right phase bit
                         }
+                    } else if ahead {
+                        (s_gen + 2, (s_gen % 2) as u8, key_of(s_gen + 2))
                     } else {
                         (s_gen, (s_gen % 2) as u8, key_of(s_gen))
                     };
